@@ -501,13 +501,17 @@ class Entry(object):
         persons = self.persons[role]
         return ' and '.join(str(person) for person in persons)
 
-    def _find_crossref_field(self, name, bib_data):
+    def _find_crossref_field(self, name, bib_data, visited=frozenset()):
         if bib_data is None or 'crossref' not in self.fields:
             raise KeyError(name)
-        referenced_entry = bib_data.entries[self.fields['crossref']]
-        return referenced_entry._find_field(name, bib_data)
+        crossref = self.fields['crossref']
+        if crossref.lower() in visited:
+            # circular cross-reference: no entry of the cycle defines the field
+            raise KeyError(name)
+        referenced_entry = bib_data.entries[crossref]
+        return referenced_entry._find_field(name, bib_data, visited | {crossref.lower()})
 
-    def _find_field(self, name, bib_data=None):
+    def _find_field(self, name, bib_data=None, visited=frozenset()):
         """
         Find the field with the given ``name`` according to this rules:
 
@@ -528,7 +532,7 @@ class Entry(object):
             try:
                 return self._find_person_field(name)
             except KeyError:
-                return self._find_crossref_field(name, bib_data)
+                return self._find_crossref_field(name, bib_data, visited)
 
     def to_string(self, bib_format, **kwargs):
         """
